@@ -178,7 +178,9 @@ def rule_P_TABLE(ctx, scopes, floor_sites):
     n_sites = 0
     import blen
     blen_sites, _posts = blen.proofs(f)
-    for key, p, bi, t in site_keys(f, inv):
+    all_sites = list(site_keys(f, inv))
+    renumbered = _renumbering(f, table, all_sites)
+    for key, p, bi, t in all_sites:
         b = f.mir[p]
         ctx.fn(b)
         site = "%s:%s" % (b["span"]["file"], t["line"])
@@ -212,15 +214,11 @@ def rule_P_TABLE(ctx, scopes, floor_sites):
         if proved and not (ok_ops and not missing):
             ctx.ob("P-GUARD", key + " (proved by B-LEN)", True, "", site)
             continue
-        if not (ok_ops and not missing):
-            # the ordinal of a site follows the block order, which a restructured loop changes: another reviewed entry of the same function
-            # and kind with exactly these operands and guards is this site under its old number
-            stem = key.rsplit(" #", 1)[0]
-            for k2, e2 in table.items():
-                if k2 != key and k2.rsplit(" #", 1)[0] == stem and e2["ops"] == ops and all(g in live for g in e2["need"]) \
-                        and all(lower_bound(live, bd["expr"]) >= bd["min"] for bd in e2.get("bounds", [])):
-                    ok_ops, missing = True, []
-                    break
+        if not (ok_ops and not missing) and key in renumbered:
+            # the ordinal of a site follows the block order, which a restructured loop changes.  `renumbered` is a ONE-TO-ONE assignment of
+            # ALL sites of this function and kind to its reviewed entries under which every site has exactly the operands and guards of its
+            # entry (a permutation of the numbering) -- a site cannot borrow the weaker requirement of a sibling that is still in use
+            ok_ops, missing = True, []
         ctx.ob("P-GUARD", key, ok_ops and not missing,
                ("operands changed: %s (reviewed: %s)" % (json.dumps(ops, ensure_ascii=False), json.dumps(ent["ops"], ensure_ascii=False)) if not ok_ops else "")
                + (" reviewed guard no longer forced: %s" % missing if missing else ""), site)
@@ -235,6 +233,51 @@ def rule_P_TABLE(ctx, scopes, floor_sites):
         ext |= cg.ext.get(p, set())
     ctx.extra["external_callees_assumed_total"] = sorted(x for x in ext if x not in MAY_PANIC and not any(x.startswith(y) for y in PANIC_FNS))[:200]
     return reach
+
+
+def _renumbering(f, table, all_sites):
+    """{site key: entry key} for the groups (function, kind) in which some site does not match the entry of its own number but a one-to-one
+    assignment of all the group's sites to the group's entries exists with every pair matching exactly (operands equal, reviewed guards and
+    bounds forced)"""
+    groups = {}
+    for key, p, bi, t in all_sites:
+        if "| assert Overflow(Add)" in key:
+            continue
+        groups.setdefault(key.rsplit(" #", 1)[0], []).append((key, p, bi, t))
+    out = {}
+    syms = {}
+    for stem, sites in groups.items():
+        ents = {k: e for k, e in table.items() if k.rsplit(" #", 1)[0] == stem}
+        if not ents or len(sites) > len(ents) or len(sites) > 8:
+            continue
+        facts_ = []
+        for key, p, bi, t in sites:
+            b = f.mir[p]
+            sym = syms.setdefault(p, G.Sym(b))
+            ops = G.site_operands(sym, t) if ("| panic " not in key and "| diverges " not in key) else {}
+            live = set("%s = %s" % (e, v) for e, v in sym.live_guards(bi))
+            facts_.append((key, ops, live))
+
+        def fits(ops, live, e):
+            return e["ops"] == ops and all(g in live for g in e["need"]) and all(lower_bound(live, bd["expr"]) >= bd["min"] for bd in e.get("bounds", []))
+        if all(k in ents and fits(o, l, ents[k]) for k, o, l in facts_):
+            continue
+        cand = [[ek for ek, e in ents.items() if fits(o, l, e)] for k, o, l in facts_]
+
+        def assign(i, used):
+            if i == len(facts_):
+                return {}
+            for ek in cand[i]:
+                if ek not in used:
+                    r = assign(i + 1, used | {ek})
+                    if r is not None:
+                        r[facts_[i][0]] = ek
+                        return r
+            return None
+        r = assign(0, frozenset())
+        if r:
+            out.update(r)
+    return out
 
 
 def strip_alt_guards(x):
@@ -554,6 +597,30 @@ def rule_R_BORDER(ctx, floor=10):
     sites = border_sites(ctx.facts)
     import blen
     _sites, post_ok = blen.proofs(ctx.facts)
+    renumbered_b = {}
+    grp = {}
+    for key, b, bi, st, ops, live in sites:
+        grp.setdefault(key.rsplit(" #", 1)[0], []).append((key, ops, live))
+    for stem, ss in grp.items():
+        ents = {k: e for k, e in table.items() if k.rsplit(" #", 1)[0] == stem}
+        fits = lambda o, l, e: e["ops"] == o and all(g in l for g in e["need"])
+        if not ents or len(ss) > len(ents) or len(ss) > 8 or all(k in ents and fits(o, l, ents[k]) for k, o, l in ss):
+            continue
+        cand = [[ek for ek, e in ents.items() if fits(o, l, e)] for k, o, l in ss]
+
+        def assign(i, used):
+            if i == len(ss):
+                return {}
+            for ek in cand[i]:
+                if ek not in used:
+                    r = assign(i + 1, used | {ek})
+                    if r is not None:
+                        r[ss[i][0]] = ek
+                        return r
+            return None
+        r = assign(0, frozenset())
+        if r:
+            renumbered_b.update(r)
     for key, b, bi, st, ops, live in sites:
         ctx.fn(b)
         ent = table.get(key)
@@ -567,13 +634,11 @@ def rule_R_BORDER(ctx, floor=10):
         if proved and not (ops == ent["ops"] and not missing):
             ctx.ob("R-BORDER", key + " (post proved by B-LEN)", True, "", site)
             continue
-        if not (ops == ent["ops"] and not missing):
-            # ordinals follow the block order: accept the reviewed entry of the same function and kind that has exactly this expression and guards
-            stem = key.rsplit(" #", 1)[0]
-            for k2, e2 in table.items():
-                if k2 != key and k2.rsplit(" #", 1)[0] == stem and e2["ops"] == ops and all(g in live for g in e2["need"]):
-                    ent, missing = e2, []
-                    break
+        if not (ops == ent["ops"] and not missing) and key in renumbered_b:
+            # ordinals follow the block order: a one-to-one renumbering of ALL returned borders of this function and kind exists under which
+            # each has exactly the reviewed expression and guards
+            ent, missing = table[renumbered_b[key]], []
+            ops = ent["ops"]
         ctx.ob("R-BORDER", key, ops == ent["ops"] and not missing,
                ("border expression changed: %s (reviewed %s)" % (ops, ent["ops"]) if ops != ent["ops"] else "") + (" reviewed guard no longer forced: %s" % missing if missing else ""), site)
     ctx.floor("returned borders", len(sites), floor)
